@@ -65,6 +65,8 @@ def build(repo="/repo", san=False, quiet=True):
              "-I" + repo, "-I" + os.path.join(repo, "src")]
     if os.environ.get("VERIF_DEBUG_BUILD"):
         flags[1:3] = ["-O0", "-g"]
+    if os.environ.get("VERIF_DEVCODE"):
+        flags.append("-DDEVELOPMENT_CODE")
     if san:
         flags += ["-g", "-fsanitize=address,undefined",
                   "-fno-sanitize-recover=undefined", "-fno-omit-frame-pointer"]
